@@ -87,7 +87,7 @@ package gen
 
 // C06. The open row group is the last one; it has NumRows 0 until its first
 // page is written. rootOK is the invariant of the writer the user holds.
-//@ pred rootOK(p) := p.max >= 1 && p.len >= 0 && #p.fields >= 1 && mInv(p.meta) && lastRows(p.meta) == 0 && (p.len == 0 <==> p.meta.rowGroupDocs == 0)
+//@ pred rootOK(p) := p.max >= 1 && p.len >= 0 && p.len <= p.max && #p.fields >= 1 && mInv(p.meta) && lastRows(p.meta) == 0 && (p.len == 0 <==> p.meta.rowGroupDocs == 0)
 //@ pred groupsSame(m) := #m.rowGroups == old(#m.rowGroups) && (forall k in 0..#m.rowGroups: m.rowGroups[k].rowGroup.NumRows == old(m.rowGroups[k].rowGroup.NumRows))
 // W0: nothing pending — the call is inert (no byte, no accounting change).
 // W1: the pending batch becomes exactly one closed row group holding as many
@@ -197,7 +197,8 @@ package gen
 // index of the last option with function identity id, or -1
 //@ recfn[4] lastOpt(A array<int>, off int, n int, id int) int := ite(n <= 0, 0 - 1, ite(fnid(A[off + n - 1]) == id, n - 1, lastOpt(A, off, n - 1, id)))
 // C06: overflow pages form a chain of writers that share the root's metadata and page size.
-//@ pred chainAt(c) := c.child != nil ==> c.child.meta == c.meta && c.child.max == c.max
+// ... and no writer of a chain ever buffers more records than the page size (C02: a page holds at most that many)
+//@ pred chainAt(c) := (c.child != nil ==> c.child.meta == c.meta && c.child.max == c.max) && (c.max >= 1 ==> 0 <= c.len && c.len <= c.max)
 // The invariant holds for every ParquetWriter object: objects of this type are
 // tracked by dynamic type, and only functions that say "allocates" create them.
 //@ tracked GEN.ParquetWriter
@@ -255,7 +256,7 @@ package gen
 //@   ensures[C09] wfault == old(wfault)
 //@   ensures[C06] p.meta.docs == old(p.meta.docs) + 1 && p.meta.rowGroupDocs == old(p.meta.rowGroupDocs) + 1 && p.meta.rowGroups == old(p.meta.rowGroups) && p.meta.ts == old(p.meta.ts)
 //@   ensures[C06] chainInv(allocbound()) && (forall r in 1..old(allocbound()): nodeKept(cast("*GEN.ParquetWriter", r)))
-//@   ensures[C06] old(rootOK(p)) ==> p.max >= 1 && p.len >= 0 && #p.fields >= 1
+//@   ensures[C06] old(rootOK(p)) ==> p.max >= 1 && p.len >= 0 && p.len <= p.max && #p.fields >= 1
 //@   ensures[C06] old(rootOK(p)) ==> mInv(p.meta)
 //@   ensures[C06] old(rootOK(p)) ==> lastRows(p.meta) == 0
 //@   ensures[C06] old(rootOK(p)) ==> (p.len == 0 <==> p.meta.rowGroupDocs == 0)
